@@ -30,13 +30,14 @@ ASSUMPTIONS = ["a failing conversion must fail the same way in every process (th
 CORE_ALLOWED = ()
 FRONTIER_KNOBS = ()
 FLOORS = {}
-_CFG = {"items": 60, "seeds": 7, "randoms": 2, "perms": 6}
+_CFG = {"items": 30, "seeds": 7, "randoms": 2, "perms": 6}
 
 
 def budgets(tier):
     if tier == "quick":
-        return {"core": 3, "frontier": 0, "shards": 1, "items": 60, "seeds": 7, "randoms": 2, "perms": 6}
-    return {"core": 24, "frontier": 0, "shards": 4, "items": 40, "seeds": 31, "randoms": 4, "perms": 12}
+        # (batches of 30: much larger ones overrun Hypothesis' entropy buffer and generation becomes the whole run time)
+        return {"core": 6, "frontier": 0, "shards": 1, "items": 30, "seeds": 7, "randoms": 2, "perms": 6}
+    return {"core": 32, "frontier": 0, "shards": 4, "items": 30, "seeds": 31, "randoms": 4, "perms": 12}
 
 
 def configure(tier, b):
